@@ -799,4 +799,171 @@ theorem rounding (g : Rat) (rows : List (List Rat)) {S : Rat} {D : Int}
     simp only [List.map_cons, List.sum_cons, Int.cast_add, add_div, List.drop_one, List.tail_cons]
     constructor <;> linarith
 
+/-! ### more on `normalize` / `distribution`: strict order, key range, non-emptiness (used by C13) -/
+
+theorem pairwise_combineAux_lt {k : Int} {v : Rat} {t : List (Int × Rat)}
+    (h : List.Pairwise (fun a b : Int × Rat => a.1 ≤ b.1) ((k, v) :: t)) :
+    List.Pairwise (fun a b : Int × Rat => a.1 < b.1) (combineAux k v t) := by
+  induction t generalizing k v with
+  | nil => simp [combineAux]
+  | cons a t ih =>
+    obtain ⟨k', v'⟩ := a
+    unfold combineAux
+    rw [List.pairwise_cons] at h
+    obtain ⟨hk, ht⟩ := h
+    have ht' := ht
+    rw [List.pairwise_cons] at ht
+    split
+    · next heq =>
+      apply ih
+      rw [List.pairwise_cons]
+      exact ⟨fun e he => hk e (by simp [he]), ht.2⟩
+    · next hne =>
+      rw [List.pairwise_cons]
+      refine ⟨?_, ih ht'⟩
+      have hkk : k < k' := lt_of_le_of_ne (hk (k', v') (by simp)) (Ne.symm hne)
+      intro e he
+      rcases (mem_combineAux he).1 with h1 | ⟨e', he', h1⟩
+      · rw [h1]; exact hkk
+      · rw [← h1]; exact lt_of_lt_of_le hkk (ht.1 e' he')
+
+/-- `normalize` yields strictly ascending keys -/
+theorem pairwise_normalize_lt (l : List (Int × Rat)) :
+    List.Pairwise (fun a b : Int × Rat => a.1 < b.1) (normalize l) := by
+  unfold normalize
+  have hs : List.Pairwise (fun a b : Int × Rat => a.1 ≤ b.1)
+      (l.mergeSort (fun a b => decide (a.1 ≤ b.1))) := by
+    have := List.pairwise_mergeSort (le := fun a b : Int × Rat => decide (a.1 ≤ b.1))
+      (by intro a b c; simp; omega) (by intro a b; simp; omega) l
+    simpa using this
+  generalize l.mergeSort (fun a b => decide (a.1 ≤ b.1)) = s at hs
+  cases s with
+  | nil => simp [combine]
+  | cons a t => obtain ⟨k, v⟩ := a; exact pairwise_combineAux_lt hs
+
+theorem normalize_keys {l : List (Int × Rat)} {P : Int → Prop} (h : ∀ e ∈ l, P e.1) :
+    ∀ e ∈ normalize l, P e.1 := by
+  intro e he
+  unfold normalize at he
+  have hperm := List.mergeSort_perm l (fun a b => decide (a.1 ≤ b.1))
+  have h' : ∀ e ∈ l.mergeSort (fun a b => decide (a.1 ≤ b.1)), P e.1 :=
+    fun e he => h e (hperm.mem_iff.1 he)
+  generalize l.mergeSort (fun a b => decide (a.1 ≤ b.1)) = s at he h'
+  cases s with
+  | nil => simp [combine] at he
+  | cons a t =>
+    obtain ⟨k, v⟩ := a
+    simp only [combine] at he
+    rcases (mem_combineAux he).1 with h1 | ⟨e', he', h1⟩
+    · rw [h1]; exact h' (k, v) (by simp)
+    · rw [← h1]; exact h' e' (by simp [he'])
+
+theorem combineAux_ne_nil (k : Int) (v : Rat) (t : List (Int × Rat)) : combineAux k v t ≠ [] := by
+  induction t generalizing k v with
+  | nil => simp [combineAux]
+  | cons a t ih =>
+    obtain ⟨k', v'⟩ := a
+    unfold combineAux
+    split
+    · exact ih _ _
+    · simp
+
+theorem normalize_ne_nil {l : List (Int × Rat)} (h : l ≠ []) : normalize l ≠ [] := by
+  unfold normalize
+  have hperm := List.mergeSort_perm l (fun a b => decide (a.1 ≤ b.1))
+  have hne : l.mergeSort (fun a b => decide (a.1 ≤ b.1)) ≠ [] := by
+    intro h0; rw [h0] at hperm; exact h (List.Perm.eq_nil hperm.symm)
+  generalize l.mergeSort (fun a b => decide (a.1 ≤ b.1)) = s at hne
+  cases s with
+  | nil => exact absurd rfl hne
+  | cons a t => obtain ⟨k, v⟩ := a; exact combineAux_ne_nil k v t
+
+theorem distribution_ne_nil (bg : List Rat) {im : List (List Int)} (hne : im ≠ []) (min max : Int) :
+    distribution im bg min max ≠ [] := by
+  cases im with
+  | nil => exact absurd rfl hne
+  | cons row0 rest => exact normalize_ne_nil (by simp)
+
+theorem distribution_sorted (bg : List Rat) (im : List (List Int)) (min max : Int) :
+    (distribution im bg min max).Pairwise (fun a b => a.1 < b.1) := by
+  unfold distribution
+  split
+  · exact List.Pairwise.nil
+  · exact pairwise_normalize_lt _
+
+theorem distFrom_keys_le (bg : List Rat) (min max : Int) {rest : List (List Int)} (hne : rest ≠ [])
+    (q : List (Int × Rat)) : ∀ e ∈ distFrom bg min max rest q, e.1 ≤ max + 1 := by
+  induction rest generalizing q with
+  | nil => exact absurd rfl hne
+  | cons row rest ih =>
+    simp only [distFrom]
+    cases rest with
+    | nil =>
+      simp only [distFrom]
+      apply normalize_keys (P := fun k => k ≤ max + 1)
+      intro e he
+      rw [stepEntries_eq, List.mem_flatMap] at he
+      obtain ⟨e0, _, he⟩ := he
+      obtain ⟨xb, _, _, rfl⟩ := mem_entryStep he
+      by_cases ho : e0.1 + xb.1 > max
+      · simp only [ho, if_true]; omega
+      · simp only [ho, if_false]; omega
+    | cons row' rest' => exact ih (by simp) _
+
+/-- with at least two rows every key of `distribution min max` is `≤ max + 1` -/
+theorem distribution_keys_le (bg : List Rat) {im : List (List Int)} (hlen : 2 ≤ im.length)
+    (min max : Int) : ∀ e ∈ distribution im bg min max, e.1 ≤ max + 1 := by
+  cases im with
+  | nil => simp at hlen
+  | cons row0 rest =>
+    have hne : rest ≠ [] := by intro h; simp [h] at hlen
+    simp only [distribution]
+    apply normalize_keys (P := fun k => k ≤ max + 1)
+    intro e he
+    rcases List.mem_cons.1 he with he | he
+    · subst he; exact le_refl _
+    · exact distFrom_keys_le bg min max hne _ e he
+
+/-- `P(D ≥ k)` for the integer score `D` -/
+def tailD (bg : List Rat) (im : List (List Int)) (k : Int) : Rat :=
+  expect bg im (fun j => if k ≤ j then 1 else 0)
+
+/-- the tails read off the map are the exact tails of `D`, for every threshold inside the window -/
+theorem tailFrom_distribution (bg : List Rat) {im : List (List Int)} (him : NonnegRows im)
+    (hne : im ≠ []) {min max k : Int} (h1 : min ≤ k) (h2 : k ≤ max + 1) :
+    tailFrom (distribution im bg min max) k = tailD bg im k := by
+  rw [tailFrom_eq, tailD, ← distribution_spec bg him hne (min := min) (max := max)]
+  constructor
+  · intro j hj; simp; omega
+  · intro j hj
+    have h3 : k ≤ j := by omega
+    simp [h3, h2]
+
+theorem tailD_antitone {bg : List Rat} (hbg : ∀ b ∈ bg, 0 ≤ b) (im : List (List Int)) {j k : Int}
+    (h : j ≤ k) : tailD bg im k ≤ tailD bg im j := by
+  apply expect_mono hbg
+  intro s
+  by_cases hk : k ≤ s
+  · have : j ≤ s := le_trans h hk
+    simp [hk, this]
+  · by_cases hj : j ≤ s <;> simp [hk, hj]
+
+/-- scores below the sum of the row minima are not reachable -/
+theorem expect_congr_ge_min (bg : List Rat) {rows : List (List Int)} {f h : Int → Rat}
+    (hfh : ∀ s, (rows.map listMin).sum ≤ s → f s = h s) : expect bg rows f = expect bg rows h := by
+  induction rows generalizing f h with
+  | nil => exact hfh 0 (by simp)
+  | cons r rs ih =>
+    simp only [expect]
+    congr 1
+    apply List.map_congr_left
+    intro xb hxb
+    have h1 : listMin r ≤ xb.1 := listMin_le (List.of_mem_zip hxb).1
+    congr 1
+    apply ih
+    intro s hs
+    apply hfh
+    simp only [List.map_cons, List.sum_cons]
+    omega
+
 end LMV.Tfm
